@@ -46,6 +46,17 @@ type backendSuite struct {
 
 	// scanner-level access (C07/C13/C17): a scanner built directly over the wrapped store
 	sc scanner.Scanner
+
+	// highest revision seen in any write response header (for `sync`)
+	maxHdr uint64
+}
+
+func (s *backendSuite) noteHdr(h *proto.ResponseHeader) {
+	s.hmu.Lock()
+	if h != nil && h.Revision > s.maxHdr {
+		s.maxHdr = h.Revision
+	}
+	s.hmu.Unlock()
 }
 
 func durOpt(opts map[string]string, k string, def time.Duration) time.Duration {
@@ -158,6 +169,7 @@ func (s *backendSuite) runOp(ctx context.Context, b backend.Backend, t []string)
 		if err != nil {
 			return "create err " + classify(err)
 		}
+		s.noteHdr(resp.Header)
 		if resp.Succeeded {
 			return fmt.Sprintf("create ok %d", resp.Header.Revision)
 		}
@@ -167,6 +179,7 @@ func (s *backendSuite) runOp(ctx context.Context, b backend.Backend, t []string)
 		if err != nil {
 			return "update err " + classify(err)
 		}
+		s.noteHdr(resp.Header)
 		if resp.Succeeded {
 			return fmt.Sprintf("update ok %d", resp.Header.Revision)
 		}
@@ -176,6 +189,7 @@ func (s *backendSuite) runOp(ctx context.Context, b backend.Backend, t []string)
 		if err != nil {
 			return "delete err " + classify(err)
 		}
+		s.noteHdr(resp.Header)
 		if resp.Succeeded {
 			return fmt.Sprintf("delete ok %d %s", resp.Header.Revision, kvStr(resp.Kv))
 		}
@@ -373,13 +387,106 @@ func (s *backendSuite) do(t []string) string {
 			last = resp.Header.Revision
 		}
 		return fmt.Sprintf("fill %d", last)
+	case "stress":
+		// stress <clients> <ops> <key,key,...>: free-running concurrent guarded writers on shared keys
+		// (no gates: the engine's own transaction isolation is exercised). Prints every acknowledged
+		// success as verb:key:rev:expected, sorted by key and revision, and the final state of each key.
+		nc, nops := atoi(pos[1]), atoi(pos[2])
+		var keys [][]byte
+		for _, h := range strings.Split(pos[3], ",") {
+			keys = append(keys, unhx(h))
+		}
+		type succ struct {
+			verb string
+			key  string
+			rev  uint64
+			exp  uint64
+		}
+		var mu sync.Mutex
+		var all []succ
+		var wg sync.WaitGroup
+		for c := 0; c < nc; c++ {
+			wg.Add(1)
+			go func(c int) {
+				defer wg.Done()
+				for i := 0; i < nops; i++ {
+					key := keys[(c+i)%len(keys)]
+					g, err := s.b.Get(ctx, &proto.GetRequest{Key: key})
+					if err != nil {
+						continue
+					}
+					val := []byte(fmt.Sprintf("c%d-%d", c, i))
+					if g.Kv == nil {
+						resp, err := s.b.Create(ctx, &proto.CreateRequest{Key: key, Value: val})
+						if err == nil {
+							s.noteHdr(resp.Header)
+							if resp.Succeeded {
+								mu.Lock()
+								all = append(all, succ{"create", hx(key), resp.Header.Revision, 0})
+								mu.Unlock()
+							}
+						}
+					} else if (c+i)%3 == 0 {
+						resp, err := s.b.Delete(ctx, &proto.DeleteRequest{Key: key, Revision: g.Kv.Revision})
+						if err == nil {
+							s.noteHdr(resp.Header)
+							if resp.Succeeded {
+								mu.Lock()
+								all = append(all, succ{"delete", hx(key), resp.Header.Revision, g.Kv.Revision})
+								mu.Unlock()
+							}
+						}
+					} else {
+						resp, err := s.b.Update(ctx, &proto.UpdateRequest{Kv: &proto.KeyValue{Key: key, Value: val, Revision: g.Kv.Revision}})
+						if err == nil {
+							s.noteHdr(resp.Header)
+							if resp.Succeeded {
+								mu.Lock()
+								all = append(all, succ{"update", hx(key), resp.Header.Revision, g.Kv.Revision})
+								mu.Unlock()
+							}
+						}
+					}
+				}
+			}(c)
+		}
+		wg.Wait()
+		sort.Slice(all, func(i, j int) bool {
+			if all[i].key != all[j].key {
+				return all[i].key < all[j].key
+			}
+			return all[i].rev < all[j].rev
+		})
+		parts := make([]string, len(all))
+		for i, a := range all {
+			parts[i] = fmt.Sprintf("%s:%s:%d:%d", a.verb, a.key, a.rev, a.exp)
+		}
+		var finals []string
+		for _, k := range keys {
+			g, err := s.b.Get(ctx, &proto.GetRequest{Key: k})
+			if err != nil {
+				finals = append(finals, hx(k)+"=err")
+			} else if g.Kv == nil {
+				finals = append(finals, hx(k)+"=-")
+			} else {
+				finals = append(finals, fmt.Sprintf("%s=%d", hx(k), g.Kv.Revision))
+			}
+		}
+		l := "-"
+		if len(parts) > 0 {
+			l = strings.Join(parts, ",")
+		}
+		return fmt.Sprintf("stress %s final=%s", l, strings.Join(finals, ","))
 	case "sync":
 		// wait (bounded) until the committed revision has been stable for 20 ms — for runs whose
 		// revisions are wall-clock values the model cannot predict
 		last := s.b.GetCurrentRevision()
 		stable := time.Now()
 		deadline := time.Now().Add(s.wait)
-		for time.Now().Before(deadline) && time.Since(stable) < 20*time.Millisecond {
+		s.hmu.Lock()
+		floor := s.maxHdr
+		s.hmu.Unlock()
+		for time.Now().Before(deadline) && (last < floor || time.Since(stable) < 20*time.Millisecond) {
 			time.Sleep(500 * time.Microsecond)
 			if cur := s.b.GetCurrentRevision(); cur != last {
 				last, stable = cur, time.Now()
@@ -424,6 +531,9 @@ func (s *backendSuite) do(t []string) string {
 		ts := atou(infos[1])
 		b2.SetCurrentRevision(ts)
 		s.b = b2
+		s.hmu.Lock()
+		s.maxHdr = 0
+		s.hmu.Unlock()
 		maxStored := s.maxStoredRevision()
 		if ts >= maxStored {
 			return "restart above"
